@@ -28,7 +28,7 @@ def guard_atoms(guards):
 
 def _cond_atoms(c, s):
     if c[0] == 'cmp':
-        walk_atoms(c[3], s)
+        walk_atoms(c[3] if len(c) > 3 else c[2], s)      # full form / App-argument form (cond_arg)
     elif c[0] in ('and', 'or'):
         for x in c[1:]:
             _cond_atoms(x, s)
@@ -273,10 +273,20 @@ def eval_cond_full(c, env):
         d = c[2] if isinstance(c[2], Rat) else c[3]
         v = evaluate(d, env)
         return {'==': v == 0, '!=': v != 0, '<': v < 0, '<=': v <= 0}[c[1]]
-    if c[0] == 'and':
-        return all(eval_cond_full(x, env) for x in c[1:])
-    if c[0] == 'or':
-        return any(eval_cond_full(x, env) for x in c[1:])
+    if c[0] in ('and', 'or'):
+        # operand order is not significant (conditions are stored sorted): a deciding operand wins over one that
+        # cannot be evaluated (`x is not None and x != y` with x unbound)
+        dec = c[0] == 'or'
+        err = None
+        for x in c[1:]:
+            try:
+                if eval_cond_full(x, env) is dec:
+                    return dec
+            except CannotEvaluate as e:
+                err = e
+        if err is not None:
+            raise err
+        return not dec
     if c[0] == 'not':
         return not eval_cond_full(c[1], env)
     if c[0] == 'const':
